@@ -40,6 +40,10 @@ Proof. exact rejection_order_irrelevant. Qed.
 Theorem C14_rejected_iff_cyclic : forall P, (exists n, find_cycle P = Some n) <-> has_cycle P.
 Proof. exact rejected_iff_cyclic. Qed.
 
+(* the command the error names lies on a cycle itself (it is not merely upstream of one) *)
+Theorem C14_names_a_command_on_a_cycle : forall P n, find_cycle P = Some n -> exists l, chain P n l n.
+Proof. exact reported_on_cycle. Qed.
+
 Example C14_example :
   let P := [ {| nm := 0; rl := [(true, 1)] |}; {| nm := 1; rl := [(false, 2)] |}; {| nm := 2; rl := [(true, 1)] |};
              {| nm := 3; rl := [] |} ] in
@@ -54,3 +58,4 @@ Print Assumptions C14_names_a_command.
 Print Assumptions C14_accepted_iff_ranked.
 Print Assumptions C14_rejection_is_order_free.
 Print Assumptions C14_rejected_iff_cyclic.
+Print Assumptions C14_names_a_command_on_a_cycle.
